@@ -625,15 +625,18 @@ def full_check(m: onnx.ModelProto):
 
 
 class Case:
-    __slots__ = ("ins", "outs", "drop", "meta", "refl", "impl", "model_proto", "exc", "model", "coq")
+    __slots__ = ("ins", "outs", "drop", "meta", "refl", "impl", "model_proto", "exc", "model", "coq", "pre")
 
     def __init__(self, ins, outs, drop=False, meta=None):
         self.ins, self.outs, self.drop, self.meta = ins, outs, drop, meta or {}
-        self.refl = self.impl = self.model_proto = self.exc = self.model = self.coq = None
+        self.refl = self.impl = self.model_proto = self.exc = self.model = self.coq = self.pre = None
 
 
 def run_impl(case: Case):
     """Reflect BEFORE the build (the reflection is what build sees), then run the real build."""
+    pre = getattr(case, "pre", None)
+    if pre is not None:      # an earlier (typically failing) build in the same process: history must not matter
+        outcome(lambda: build(pre[0], pre[1], drop_unused_inputs=pre[2]))
     try:
         case.refl = Reflect(case.ins, case.outs, case.drop)
         case.coq = (case.refl.coq_prog(), case.refl.coq_request())
